@@ -2,6 +2,7 @@ package rules
 
 import (
 	"go/ast"
+	"go/constant"
 	"go/token"
 	"go/types"
 	"strings"
@@ -925,6 +926,13 @@ func (vf *muxFlow) localCallee(call *ast.CallExpr) (fo *types.Func, recv ast.Exp
 		return nil, nil, nil
 	}
 	d := vf.singleDef(o)
+	if pr, isParam := vf.param[o]; isParam && d == nil && len(vf.defs[o]) == 0 && pr.idx >= 0 {
+		// a func parameter of a helper called from one place (searchRules(rules, req, ip, remember)):
+		// the operand of that call
+		if sites := vf.sites[pr.fn]; len(sites) == 1 && pr.idx < len(sites[0].Call.Args) && !sites[0].Call.Ellipsis.IsValid() {
+			d = sites[0].Call.Args[pr.idx]
+		}
+	}
 	if d == nil {
 		return nil, nil, nil
 	}
@@ -1199,6 +1207,16 @@ func (s *searchInfo) val(st *flow.State, list []*ast.CallExpr) flow.Val {
 
 // allowed reports the outcome of the IP filter evaluation of a level known in st.
 func (s *searchInfo) allowed(st *flow.State, level string) flow.Val {
+	if v := s.allowedNow(st, level); v != flow.Unknown || level != "server" {
+		return v
+	}
+	// the verdict of the server's filter holds for the whole search; the engine drops the fact
+	// when a variable the call mentions has its address taken (searchRule(&s, rule) after
+	// allowIP(mi.ipFilter, s.ip)), the verdict is remembered when it is learned
+	return st.Get("ev:srvAllowed")
+}
+
+func (s *searchInfo) allowedNow(st *flow.State, level string) flow.Val {
 	for _, a := range s.allow[level] {
 		if v := st.Get(s.key(a.call)); v != flow.Unknown {
 			return v
@@ -1381,6 +1399,53 @@ func analyzeSearch(c *core.Ctx, rule string) *searchInfo {
 		return nil
 	}
 	s := &searchInfo{f: f, ro: ro, cons: muxFuncConstruct(f), allow: map[string][]muxAllowSite{}, holders: map[types.Object]bool{}, cached: map[types.Object]bool{}}
+	// a form that is not followed: the matchers behind a classifier that returns an enum, the
+	// search switching on its result (what a case knows about the single matchers is a disjunction
+	// over the classifier's exits)
+	// (the rules about the IP filters alone, R-C05-*, do not ask about the matchers)
+	for _, g := range reach(f, 2) {
+		if strings.HasPrefix(rule, "R-C05") {
+			break
+		}
+		var at ast.Node
+		g := g
+		ast.Inspect(g.Body, func(n ast.Node) bool {
+			sw, ok := n.(*ast.SwitchStmt)
+			if !ok || sw.Tag == nil || at != nil {
+				return at == nil
+			}
+			call, ok := ast.Unparen(sw.Tag).(*ast.CallExpr)
+			if !ok {
+				return true
+			}
+			fo, _ := g.Callee(call).(*types.Func)
+			if fo == nil || fo.Pkg() != g.Pkg.Types {
+				return true
+			}
+			sig := fo.Type().(*types.Signature)
+			if sig.Results().Len() != 1 {
+				return true
+			}
+			bt, isBasic := sig.Results().At(0).Type().Underlying().(*types.Basic)
+			if _, named := sig.Results().At(0).Type().(*types.Named); !named || !isBasic || bt.Info()&types.IsInteger == 0 {
+				return true
+			}
+			if fd := declOf(g.Pkg, fo); fd != nil && fd.Body != nil {
+				h := funcOf(g.Pkg, fd)
+				if muxOwnCalls(h, func(inner *ast.CallExpr) bool {
+					io, ok := h.Callee(inner).(*types.Func)
+					return ok && io.Pkg() == h.Pkg.Types
+				}) {
+					at = sw
+				}
+			}
+			return true
+		})
+		if at != nil {
+			c.Undecide(rule, s.cons+"|form of the search", pos(c, at), "the search switches on the result of a classifier that calls the matchers and returns an enum: what a case says about the single matchers is not followed")
+			return nil
+		}
+	}
 	s.routeCodes = routeVars(c, ro)
 	if len(s.routeCodes) < 4 {
 		c.Errorf("%s: anchor: expected the four package-level failure routes (404/403/405/400), found %d", rule, len(s.routeCodes))
@@ -1622,6 +1687,7 @@ func analyzeSearch(c *core.Ctx, rule string) *searchInfo {
 	}
 
 	s.zeroFlags = s.findZeroFlags(c)
+	bits := newMuxBitSets(f, s.fns)
 	matcherCall := map[*ast.CallExpr]bool{}
 	for _, list := range [][]*ast.CallExpr{s.hostMatch, s.pathMatch, s.methodMatch, s.headerMatch} {
 		for _, call := range list {
@@ -1636,7 +1702,7 @@ func analyzeSearch(c *core.Ctx, rule string) *searchInfo {
 		}
 		return flow.Unknown
 	}, inlineSamePkg(f, muxObjList(opaque)...))
-	res := muxAnalyzeInl(c, f, s.pathLit.config(flow.Config{
+	res := muxAnalyzeInl(c, f, muxEnumSwitches(c, f, s.fns).config(s.pathLit.config(flow.Config{
 		NoHavoc: true,
 		OnCall: func(st *flow.State, call *ast.CallExpr, callee types.Object, deferred bool) {
 			// a matcher reads the fields of its receiver first thing: where its call has returned,
@@ -1670,6 +1736,7 @@ func analyzeSearch(c *core.Ctx, rule string) *searchInfo {
 			}
 		},
 		OnNode: func(st *flow.State, n ast.Node) {
+			bits.onNode(st, n)
 			if as, ok := n.(*ast.AssignStmt); ok {
 				for _, l := range as.Lhs {
 					if id, isID := ast.Unparen(l).(*ast.Ident); isID {
@@ -1740,6 +1807,10 @@ func analyzeSearch(c *core.Ctx, rule string) *searchInfo {
 			if s.guessedFlag(st) {
 				st.Set("ev:infeasible", flow.True)
 			}
+			if v, known := bits.eval(st, cond); known && v != outcome {
+				// the bit set the search keeps its flags in says otherwise
+				st.Set("ev:infeasible", flow.True)
+			}
 			if st.Is(evHit, flow.True) {
 				if p, d := s.chainPassedNow(st); p || d {
 					if p {
@@ -1753,8 +1824,9 @@ func analyzeSearch(c *core.Ctx, rule string) *searchInfo {
 			if s.val(st, s.headerMatch) != flow.Unknown {
 				st.Set(evHdep, flow.True)
 			}
-			if s.allowed(st, "server") != flow.Unknown {
+			if v := s.allowedNow(st, "server"); v != flow.Unknown {
 				st.Set(evIPSrv, flow.True)
+				st.Set("ev:srvAllowed", v)
 			}
 			if s.allowed(st, "rule") != flow.Unknown {
 				st.Set(evIPRule, flow.True)
@@ -1788,11 +1860,11 @@ func analyzeSearch(c *core.Ctx, rule string) *searchInfo {
 				st.Set(evHdrMis, flow.True)
 			}
 		},
-	}), muxObjList(opaque)...)
+	})), muxObjList(opaque)...)
 	if res == nil {
 		return nil
 	}
-	if len(s.zeroFlags) > 0 {
+	if len(s.zeroFlags) > 0 || bits.any() {
 		// drop the states in which the engine guessed a never-assigned flag of the freshly built
 		// state struct to be true (it does not know the zero values of a composite literal's fields)
 		keep := func(sts []*flow.State) []*flow.State {
@@ -2414,4 +2486,514 @@ func muxWrapperSound(c *core.Ctx, g *flow.Func, kind map[types.Object]string) bo
 		}
 	}
 	return n > 0
+}
+
+// ---------------------------------------------------------------------------------------
+// A classifier followed by a switch: `switch payloadKindOf(contentLength, limit) { case payloadStream: .. }`.
+// The engine evaluates the tag once as an opaque call. A classifier that is a pure function of its
+// operands (no calls, no stores, every return a named constant) is analysed on its own; when a
+// case of the switch is assumed, the exits of the classifier that return another constant (resp.
+// that constant, when the case is refused) are ruled out and the facts about the operands that
+// all remaining exits share are learned in the caller's vocabulary.
+
+type muxEnumSwitch struct {
+	id    string
+	call  *ast.CallExpr         // the tag
+	exits []map[string]flow.Val // per exit of the classifier: translated facts
+	ks    []types.Object        // per exit: the constant returned
+}
+
+type muxEnumSwitchSet struct {
+	caseOf map[ast.Expr]*muxEnumSwitch
+	tagOf  map[*ast.CallExpr]*muxEnumSwitch
+	info   *types.Info
+}
+
+func muxEnumSwitches(c *core.Ctx, f *flow.Func, fns []*flow.Func, withCalls ...bool) *muxEnumSwitchSet {
+	return muxEnumSwitchesX(c, f, fns, len(withCalls) > 0 && withCalls[0])
+}
+
+func muxEnumSwitchesX(c *core.Ctx, f *flow.Func, fns []*flow.Func, withCalls bool) *muxEnumSwitchSet {
+	set := &muxEnumSwitchSet{caseOf: map[ast.Expr]*muxEnumSwitch{}, tagOf: map[*ast.CallExpr]*muxEnumSwitch{}, info: f.Info}
+	for _, h := range fns {
+		h := h
+		ast.Inspect(h.Body, func(n ast.Node) bool {
+			sw, ok := n.(*ast.SwitchStmt)
+			if !ok || sw.Tag == nil {
+				return true
+			}
+			call, ok := ast.Unparen(sw.Tag).(*ast.CallExpr)
+			if !ok || call.Ellipsis.IsValid() {
+				return true
+			}
+			fo, _ := h.Callee(call).(*types.Func)
+			if fo == nil || fo.Pkg() != h.Pkg.Types {
+				return true
+			}
+			fd := declOf(h.Pkg, fo)
+			if fd == nil || fd.Body == nil {
+				return true
+			}
+			g := funcOf(h.Pkg, fd)
+			// no stores at all; calls only when the rule says so (they stay atoms: what the exits
+			// know about them is learned under the keys of the classifier's own call nodes)
+			pure := true
+			ast.Inspect(fd.Body, func(m ast.Node) bool {
+				switch y := m.(type) {
+				case *ast.CallExpr:
+					if tv, ok := g.Info.Types[y.Fun]; !ok || !tv.IsType() {
+						if b, isB := g.Callee(y).(*types.Builtin); !(isB && (b.Name() == "len" || b.Name() == "cap")) && !withCalls {
+							pure = false
+						}
+					}
+				case *ast.AssignStmt, *ast.IncDecStmt, *ast.GoStmt, *ast.DeferStmt, *ast.SendStmt, *ast.FuncLit:
+					pure = false
+				}
+				return pure
+			})
+			if !pure {
+				return true
+			}
+			// receiver and parameters -> operands
+			subst := map[string]string{}
+			if fd.Recv != nil {
+				sel, ok := ast.Unparen(call.Fun).(*ast.SelectorExpr)
+				if !ok || len(fd.Recv.List) != 1 || len(fd.Recv.List[0].Names) != 1 {
+					return true
+				}
+				subst[g.Render(fd.Recv.List[0].Names[0])] = h.Render(sel.X)
+			}
+			i := 0
+			for _, fld := range fd.Type.Params.List {
+				if len(fld.Names) == 0 {
+					i++
+				}
+				for _, nm := range fld.Names {
+					if i < len(call.Args) {
+						subst[g.Render(nm)] = h.Render(call.Args[i])
+					}
+					i++
+				}
+			}
+			res := analyze(c, g, flow.Config{NoHavoc: true})
+			if res == nil {
+				return true
+			}
+			es := &muxEnumSwitch{id: pos(c, sw), call: call}
+			gvf := newMuxFlow([]*flow.Func{g})
+			for _, ex := range res.Exits {
+				if ex.Kind != flow.ExitReturn {
+					return true
+				}
+				r := muxRetExpr(g, gvf, ex)
+				id := muxIdentOf(r)
+				if id == nil {
+					if sel, ok := r.(*ast.SelectorExpr); ok {
+						id = sel.Sel
+					}
+				}
+				if id == nil {
+					return true
+				}
+				k, isConst := g.Info.Uses[id].(*types.Const)
+				if !isConst {
+					return true
+				}
+				facts := map[string]flow.Val{}
+				for _, fact := range ex.State.Facts() {
+					if len(fact) < 3 || !(strings.HasPrefix(fact, "lt:") || strings.HasPrefix(fact, "eq:") || strings.HasPrefix(fact, "v:") || strings.HasPrefix(fact, "nil:") || (withCalls && strings.HasPrefix(fact, "call:"))) {
+						continue
+					}
+					key, val := fact[:len(fact)-2], fact[len(fact)-1:]
+					rest := key
+					if !strings.HasPrefix(key, "call:") { // a call atom keeps the key of its own node
+						for from, to := range subst {
+							key = strings.ReplaceAll(key, from, to)
+							rest = strings.ReplaceAll(rest, from, "")
+						}
+						if strings.Contains(rest, "\u00b7") {
+							continue // mentions a local of the classifier
+						}
+					}
+					if val == "T" {
+						facts[key] = flow.True
+					} else if val == "F" {
+						facts[key] = flow.False
+					}
+				}
+				es.exits = append(es.exits, facts)
+				es.ks = append(es.ks, k)
+			}
+			for _, st := range sw.Body.List {
+				if cc, ok := st.(*ast.CaseClause); ok {
+					for _, e := range cc.List {
+						set.caseOf[ast.Unparen(e)] = es
+					}
+				}
+			}
+			set.tagOf[call] = es
+			return true
+		})
+	}
+	return set
+}
+
+func (set *muxEnumSwitchSet) config(extra flow.Config) flow.Config {
+	if len(set.caseOf) == 0 {
+		return extra
+	}
+	onCall := extra.OnCall
+	extra.OnCall = func(st *flow.State, call *ast.CallExpr, callee types.Object, deferred bool) {
+		if es := set.tagOf[call]; es != nil {
+			// the tag is evaluated anew: every outcome of the classifier is possible again
+			for i := range es.exits {
+				st.Set(sprintf("ev:enum:%s:%d", es.id, i), flow.Unknown)
+				for key := range es.exits[i] {
+					if strings.HasPrefix(key, "call:") {
+						st.Set(key, flow.Unknown) // the classifier's own calls run again
+					}
+				}
+			}
+		}
+		if onCall != nil {
+			onCall(st, call, callee, deferred)
+		}
+	}
+	after := extra.AfterAssume
+	extra.AfterAssume = func(st *flow.State, cond ast.Expr, outcome bool) {
+		if es := set.caseOf[ast.Unparen(cond)]; es != nil {
+			var k types.Object
+			switch x := ast.Unparen(cond).(type) {
+			case *ast.Ident:
+				k = set.info.Uses[x]
+			case *ast.SelectorExpr:
+				k = set.info.Uses[x.Sel]
+			}
+			if _, isConst := k.(*types.Const); isConst {
+				var remaining []map[string]flow.Val
+				for i := range es.exits {
+					key := sprintf("ev:enum:%s:%d", es.id, i)
+					if (es.ks[i] == k) != outcome {
+						st.Set(key, flow.False)
+					}
+					if !st.Is(key, flow.False) {
+						remaining = append(remaining, es.exits[i])
+					}
+				}
+				if len(remaining) > 0 {
+					for key, v := range remaining[0] {
+						same := true
+						for _, o := range remaining[1:] {
+							if o[key] != v {
+								same = false
+							}
+						}
+						if same && st.Get(key) == flow.Unknown {
+							st.Set(key, v)
+						}
+					}
+				}
+			}
+		}
+		if after != nil {
+			after(st, cond, outcome)
+		}
+	}
+	return extra
+}
+
+// ---------------------------------------------------------------------------------------
+// Flags folded into a bit set: `var seen uint8; seen |= sawHeaderMismatch; if seen&(a|b) == 0 {..}`.
+// The engine forgets what it knew about the variable at every `|=`. A local of unsigned integer type
+// that starts at zero, is only ever written by `x |= <constant>` and whose address is never taken
+// has, on every path, exactly the bits set on that path: they are kept as events
+// (ev:bit:<x>:<i>), bool locals defined once from a test of the set are evaluated where they are
+// defined (ev:bitbool:<b>), and a branch whose assumed outcome contradicts them is infeasible.
+
+type muxBitSets struct {
+	f     *flow.Func
+	vars  map[types.Object]bool
+	bools map[types.Object]ast.Expr // bool local -> its single defining test
+}
+
+func newMuxBitSets(f *flow.Func, fns []*flow.Func) *muxBitSets {
+	b := &muxBitSets{f: f, vars: map[types.Object]bool{}, bools: map[types.Object]ast.Expr{}}
+	info := f.Info
+	cand := map[types.Object]bool{}
+	bad := map[types.Object]bool{}
+	objOf := func(id *ast.Ident) types.Object {
+		if o := info.Defs[id]; o != nil {
+			return o
+		}
+		return info.Uses[id]
+	}
+	isUint := func(t types.Type) bool {
+		bt, ok := t.Underlying().(*types.Basic)
+		return ok && bt.Info()&types.IsUnsigned != 0
+	}
+	isZero := func(e ast.Expr) bool {
+		tv, ok := info.Types[e]
+		return ok && tv.Value != nil && tv.Value.ExactString() == "0"
+	}
+	for _, g := range fns {
+		ast.Inspect(g.Body, func(n ast.Node) bool {
+			switch x := n.(type) {
+			case *ast.ValueSpec:
+				for i, nm := range x.Names {
+					o := info.Defs[nm]
+					if v, ok := o.(*types.Var); ok && isUint(v.Type()) && (len(x.Values) == 0 || (i < len(x.Values) && isZero(x.Values[i]))) {
+						cand[o] = true
+					}
+				}
+			case *ast.AssignStmt:
+				for i, l := range x.Lhs {
+					id, ok := ast.Unparen(l).(*ast.Ident)
+					if !ok {
+						continue
+					}
+					o := objOf(id)
+					v, isVar := o.(*types.Var)
+					if !isVar || !isUint(v.Type()) {
+						continue
+					}
+					switch {
+					case x.Tok == token.DEFINE && len(x.Lhs) == len(x.Rhs) && isZero(x.Rhs[i]):
+						cand[o] = true
+					case x.Tok == token.OR_ASSIGN && len(x.Rhs) == 1 && info.Types[x.Rhs[0]].Value != nil:
+					default:
+						bad[o] = true
+					}
+				}
+			case *ast.IncDecStmt:
+				if id, ok := ast.Unparen(x.X).(*ast.Ident); ok {
+					bad[objOf(id)] = true
+				}
+			case *ast.UnaryExpr:
+				if id, ok := ast.Unparen(x.X).(*ast.Ident); ok && x.Op == token.AND {
+					bad[objOf(id)] = true
+				}
+			case *ast.FuncLit:
+				// written inside a closure: not followed
+				ast.Inspect(x.Body, func(m ast.Node) bool {
+					if as, ok := m.(*ast.AssignStmt); ok {
+						for _, l := range as.Lhs {
+							if id, ok := ast.Unparen(l).(*ast.Ident); ok {
+								bad[objOf(id)] = true
+							}
+						}
+					}
+					return true
+				})
+			case *ast.RangeStmt:
+				for _, e := range []ast.Expr{x.Key, x.Value} {
+					if id, ok := e.(*ast.Ident); ok {
+						bad[objOf(id)] = true
+					}
+				}
+			}
+			return true
+		})
+	}
+	for o := range cand {
+		if !bad[o] {
+			b.vars[o] = true
+		}
+	}
+	if len(b.vars) == 0 {
+		return b
+	}
+	// bool locals defined once from a test of a tracked set
+	vf := newMuxFlow(fns)
+	for o := range vf.ident {
+		v, ok := o.(*types.Var)
+		if !ok || v.IsField() || !types.Identical(v.Type(), types.Typ[types.Bool]) {
+			continue
+		}
+		if d := vf.singleDef(o); d != nil && b.mentions(d) {
+			b.bools[o] = d
+		}
+	}
+	return b
+}
+
+func (b *muxBitSets) any() bool { return b != nil && len(b.vars) > 0 }
+
+func (b *muxBitSets) mentions(e ast.Expr) bool {
+	found := false
+	ast.Inspect(e, func(n ast.Node) bool {
+		if id, ok := n.(*ast.Ident); ok && b.vars[b.f.Info.Uses[id]] {
+			found = true
+		}
+		return !found
+	})
+	return found
+}
+
+func (b *muxBitSets) onNode(st *flow.State, n ast.Node) {
+	if !b.any() {
+		return
+	}
+	info := b.f.Info
+	reset := func(id *ast.Ident) {
+		pre := "ev:bit:" + b.f.Render(id) + ":"
+		for _, fact := range st.Facts() {
+			if strings.HasPrefix(fact, pre) {
+				st.Set(fact[:len(fact)-2], flow.Unknown)
+			}
+		}
+	}
+	switch x := n.(type) {
+	case *ast.DeclStmt:
+		if gd, ok := x.Decl.(*ast.GenDecl); ok {
+			for _, sp := range gd.Specs {
+				if vs, ok := sp.(*ast.ValueSpec); ok {
+					for _, nm := range vs.Names {
+						if b.vars[info.Defs[nm]] {
+							reset(nm)
+						}
+					}
+				}
+			}
+		}
+	case *ast.AssignStmt:
+		for i, l := range x.Lhs {
+			id, ok := ast.Unparen(l).(*ast.Ident)
+			if !ok {
+				continue
+			}
+			o := info.Defs[id]
+			if o == nil {
+				o = info.Uses[id]
+			}
+			if b.vars[o] {
+				if x.Tok == token.DEFINE {
+					reset(id)
+				} else if x.Tok == token.OR_ASSIGN && len(x.Rhs) == 1 {
+					if m, ok := constant.Uint64Val(constant.ToInt(info.Types[x.Rhs[0]].Value)); ok {
+						for k := 0; k < 64; k++ {
+							if m&(1<<uint(k)) != 0 {
+								st.Set(sprintf("ev:bit:%s:%d", b.f.Render(id), k), flow.True)
+							}
+						}
+					}
+				}
+			}
+			if d, isBool := b.bools[o]; isBool && len(x.Lhs) == len(x.Rhs) && ast.Unparen(x.Rhs[i]) == ast.Unparen(d) {
+				st.Set("ev:bitbool:"+b.f.Render(id), flow.Unknown)
+				if v, known := b.eval(st, d); known {
+					if v {
+						st.Set("ev:bitbool:"+b.f.Render(id), flow.True)
+					} else {
+						st.Set("ev:bitbool:"+b.f.Render(id), flow.False)
+					}
+				}
+			}
+		}
+	}
+}
+
+// eval computes a condition from the tracked bits; known is false when it depends on anything else.
+func (b *muxBitSets) eval(st *flow.State, e ast.Expr) (val, known bool) {
+	if !b.any() || e == nil {
+		return false, false
+	}
+	info := b.f.Info
+	switch x := ast.Unparen(e).(type) {
+	case *ast.Ident:
+		if _, isBool := b.bools[info.Uses[x]]; isBool {
+			switch st.Get("ev:bitbool:" + b.f.Render(x)) {
+			case flow.True:
+				return true, true
+			case flow.False:
+				return false, true
+			}
+		}
+	case *ast.UnaryExpr:
+		if x.Op == token.NOT {
+			v, k := b.eval(st, x.X)
+			return !v, k
+		}
+	case *ast.BinaryExpr:
+		switch x.Op {
+		case token.LAND, token.LOR:
+			lv, lk := b.eval(st, x.X)
+			rv, rk := b.eval(st, x.Y)
+			if x.Op == token.LAND {
+				if (lk && !lv) || (rk && !rv) {
+					return false, true
+				}
+				return lv && rv, lk && rk
+			}
+			if (lk && lv) || (rk && rv) {
+				return true, true
+			}
+			return lv || rv, lk && rk
+		case token.EQL, token.NEQ:
+			for i, side := range []ast.Expr{x.X, x.Y} {
+				other := x.Y
+				if i == 1 {
+					other = x.X
+				}
+				tv := info.Types[other]
+				if tv.Value == nil {
+					continue
+				}
+				want, ok := constant.Uint64Val(constant.ToInt(tv.Value))
+				if !ok {
+					continue
+				}
+				got, ok := b.value(st, side)
+				if !ok {
+					continue
+				}
+				return (got == want) == (x.Op == token.EQL), true
+			}
+		}
+	}
+	return false, false
+}
+
+// value computes x, x&M, M&x for a tracked set x and a constant M.
+func (b *muxBitSets) value(st *flow.State, e ast.Expr) (uint64, bool) {
+	info := b.f.Info
+	switch x := ast.Unparen(e).(type) {
+	case *ast.Ident:
+		if !b.vars[info.Uses[x]] {
+			return 0, false
+		}
+		var v uint64
+		pre := "ev:bit:" + b.f.Render(x) + ":"
+		for _, fact := range st.Facts() {
+			if strings.HasPrefix(fact, pre) && strings.HasSuffix(fact, "=T") {
+				k := 0
+				for _, ch := range fact[len(pre) : len(fact)-2] {
+					k = k*10 + int(ch-'0')
+				}
+				v |= 1 << uint(k)
+			}
+		}
+		return v, true
+	case *ast.BinaryExpr:
+		if x.Op != token.AND {
+			return 0, false
+		}
+		for i, side := range []ast.Expr{x.X, x.Y} {
+			other := x.Y
+			if i == 1 {
+				other = x.X
+			}
+			tv := info.Types[other]
+			if tv.Value == nil {
+				continue
+			}
+			m, ok := constant.Uint64Val(constant.ToInt(tv.Value))
+			if !ok {
+				continue
+			}
+			if v, ok := b.value(st, side); ok {
+				return v & m, true
+			}
+		}
+	}
+	return 0, false
 }
